@@ -46,7 +46,7 @@ def np_array(kind, toks):
     with a negative stride) - results must not depend on it and the caller's array must never be written to."""
     a = _np_array(kind, toks)
     form = os.environ.get("MC_ARRAY_FORM")
-    if not form:
+    if not form or form == "pylist":
         return a
     if form == "readonly":
         a.flags.writeable = False
@@ -101,8 +101,36 @@ def vector(kind, toks):
     return Vector(np_array(kind, toks))
 
 
+def py_list(kind, toks):
+    """The same column as a plain Python LIST (None for missing), for the kinds whose type the constructor infers
+    from such a list to be the kind's own dtype; None for the others."""
+    if kind == "str":
+        return list(toks)
+    if kind == "f8":
+        return [None if t is None else float(t) for t in toks]
+    if kind == "i8":
+        return [int(t) for t in toks]
+    if kind == "b1":
+        return [bool(t) for t in toks]
+    if kind == "D":
+        return [None if t is None else datetime.date.fromisoformat(t) for t in toks]
+    return None
+
+
 def frame(cols):
     """cols: list of (name, kind, toks) -> DataFrame built through the public constructor."""
+    if os.environ.get("MC_ARRAY_FORM") == "pylist":
+        # plain Python lists wherever the inferred dtype is the kind's own (an empty list has no type to infer)
+        data = {}
+        for name, kind, toks in cols:
+            lst = py_list(kind, toks) if any(t is not None for t in toks) else None   # (an all-missing list has no type either)
+            data[name] = lst if lst is not None else _np_array(kind, toks)
+        d = DataFrame(data)
+        for name, kind, toks in cols:
+            want = _np_array(kind, toks).dtype
+            if dict.__getitem__(d, name).dtype != want:
+                raise RuntimeError(f"harness: list form of a {kind} column was given dtype {dict.__getitem__(d, name).dtype}, not {want}")
+        return d
     return DataFrame({name: np_array(kind, toks) for name, kind, toks in cols})
 
 
